@@ -43,13 +43,35 @@ def check(w, tier, t0):
     sd = lib.seed()
     verdict = lib.Verdict(PROP)
     d = w.sub("mc")
-    r = lib.tlc(d, "WriteSet", lib.cfg_of("WriteSet"), timeout=3000)
+    r = lib.tlc(d, "WriteSet", lib.cfg_of("WriteSet"), timeout=3000, extra=["-dump", "states.dump"])
     if not r.ok:
         raise lib.Inconclusive("WriteSet model run failed:\n" + (r.error or ""))
     states, trans = r.distinct, r.generated
+    # direction A: the (model, write) states TLC explored are executed on generated two-field model types
+    # (thorough: every state; quick: every 40th)
+    cases = [{"model": st["m"], "write": st["w"]} for st in lib.parse_dump_states(os.path.join(d, "states.dump"), ["m", "w"])]
+    cases.sort(key=lambda c: json.dumps(c["model"], sort_keys=True))
+    if tier == "quick":
+        cases = cases[sd % 40::40]
+    nstates = len(cases)
     n = 400 if tier == "quick" else 60000
     d = w.sub("run")
     events = []
+
+    def rep(a):
+        j, part = a
+        f, o = os.path.join(d, "s%d.ndjson" % j), os.path.join(d, "so%d.ndjson" % j)
+        lib.write_ndjson(f, part)
+        lib.run([vh, "wset-replay", "-cases", f, "-out", o], timeout=6000)
+        rows = lib.read_ndjson(o)
+        for x in rows:
+            x["_src"] = ["state", part[x["case"] - 1]]
+        return rows
+    step = max(1, (len(cases) + 15) // 16)
+    with ThreadPoolExecutor(max_workers=lib.NCPU) as ex:
+        for part in ex.map(rep, enumerate([cases[i:i + step] for i in range(0, len(cases), step)])):
+            events += part
+    nreplayed = len(events)
     with ThreadPoolExecutor(max_workers=8) as ex:
         for part in ex.map(lambda j: gen(vh, d, "w%d" % j, n, sd * 1000 + j), range(8)):
             events += part
@@ -61,6 +83,12 @@ def check(w, tier, t0):
         verdict.bad({"src": e["_src"], "case": e["case"]}, None, describe(e, b))
 
     def reproduce(case):
+        if case["src"][0] == "state":
+            dd = w.sub("repro-" + lib.case_hash(case))
+            lib.write_ndjson(os.path.join(dd, "s.ndjson"), [case["src"][1]])
+            lib.run([vh, "wset-replay", "-cases", os.path.join(dd, "s.ndjson"), "-out", os.path.join(dd, "o.ndjson")])
+            vv, _, _ = validate(w, "R" + lib.case_hash(case), lib.read_ndjson(os.path.join(dd, "o.ndjson")))
+            return len(vv["bad"]) > 0
         rows = gen(vh, w.sub("repro-" + lib.case_hash(case)), "r", case["src"][0], case["src"][1], only=case["case"])
         vv, _, _ = validate(w, "R" + lib.case_hash(case), rows)
         return len(vv["bad"]) > 0
@@ -70,8 +98,8 @@ def check(w, tier, t0):
     samples = [{k: e[k] for k in ("model", "op", "pay", "sel", "star", "omit", "colspelling", "obs")} for e in (events[1], events[len(events) // 2])]
     cov = {"states": states, "transitions": trans, "traces_validated_against_impl": len(events), "samples": samples,
            "evaluations": len(events), "distinct_nontrivial": len(nontrivial),
-           "rule": "one evaluation = one write (Updates struct/map, Update, UpdateColumns struct/map, UpdateColumn, Save, Create struct/map, upsert UpdateAll) on a generated model type (4 integer fields with random permission tags <-:create, <-:update, <-:false, ->, -, -:migration and an optional autoUpdateTime:nano field) with random zero/non-zero payload entries, Select (names, '*') / Omit sets in field or column spelling, on a 3-row table with one target row; the cell-by-cell diff is compared with WriteSet.Written; non-trivial = a restricted permission or a Select/Omit",
-           "exhaustive": False}
+           "rule": "one evaluation = one write (Updates struct/map, Update, UpdateColumns struct/map, UpdateColumn, Save, Create struct/map, upsert UpdateAll) on a generated model type (4 integer fields with random permission tags <-:create, <-:update, <-:false, ->, -, -:migration and an optional autoUpdateTime:nano field) with random zero/non-zero payload entries, Select (names, '*') / Omit sets in field or column spelling, on a 3-row table with one target row; plus direction A: the (two-field model, write) states of the TLC state graph executed on generated types (thorough: all, quick: every 40th; states outside the driver's domain skipped); the cell-by-cell diff is compared with WriteSet.Written; non-trivial = a restricted permission or a Select/Omit",
+           "exhaustive": tier != "quick", "states_replayed": nreplayed, "states_selected": nstates}
     lib.write_evidence(PROP, tier, "model_checking", cov, time.time() - t0, len(verdict.violations),
                        ["models are built with reflect.StructOf; tables are created by raw DDL", "an explicit DoUpdates naming a non-updatable column is outside the property",
                         "upsert is exercised through UpdateAll without Select; Create from a map never names an ignored field (gorm emits invalid SQL for it: observation F17)"])
@@ -81,7 +109,13 @@ def check(w, tier, t0):
 def replay(w, path):
     vh = lib.build_harness()
     case = json.load(open(path))
-    rows = gen(vh, w.sub("replay"), "r", case["src"][0], case["src"][1], only=case["case"])
+    if case["src"][0] == "state":
+        dd = w.sub("replay")
+        lib.write_ndjson(os.path.join(dd, "s.ndjson"), [case["src"][1]])
+        lib.run([vh, "wset-replay", "-cases", os.path.join(dd, "s.ndjson"), "-out", os.path.join(dd, "o.ndjson")])
+        rows = lib.read_ndjson(os.path.join(dd, "o.ndjson"))
+    else:
+        rows = gen(vh, w.sub("replay"), "r", case["src"][0], case["src"][1], only=case["case"])
     v, _, _ = validate(w, "R", rows)
     if v["bad"]:
         print("VIOLATION property=%s replay=%s" % (PROP, path))
